@@ -8,6 +8,7 @@ RegisteredDelivery / DataCoding / InterfaceVersion, map-lookup based CommandID.S
 CommandStatus.String) are covered by the regenerated panic-site inventory; Parse's decoders are
 total (GSM 7-bit: C08 model; the others are golang.org/x/text, trusted).
 -/
+import Smpp.Properties.SrcGsm7
 import Smpp.Properties.SrcPduAccess
 import Smpp.Properties.SrcCombine
 import Smpp.Proofs.CombinerProofs
